@@ -328,7 +328,7 @@ func writeKernelSample(out string, lines, answers []string, k int) {
 		cnt++
 	}
 	sb.WriteString("Definition kernel_mismatches : list nat := Eval vm_compute in\n  filter_idx [" + strings.Join(names, ";\n    ") + "].\n")
-	txt := strings.Replace(sb.String(), "Definition kernel_mismatches", "Fixpoint idx_false (i : nat) (l : list bool) : list nat := match l with [] => [] | b :: r => (if b then [] else [i]) ++ idx_false (S i) r end.\nDefinition filter_idx := idx_false O.\nDefinition kernel_mismatches", 1)
+	txt := strings.Replace(sb.String(), "Definition kernel_mismatches", "Fixpoint idx_false (i : nat) (l : list bool) : list nat := match l with [] => [] | b :: r => (if b then [] else [i]) ++ idx_false (Datatypes.S i) r end.\nDefinition filter_idx := idx_false O.\nDefinition kernel_mismatches", 1)
 	txt += "Print kernel_mismatches.\n"
 	os.WriteFile(filepath.Join(out, "cases.v"), []byte(txt), 0o644)
 }
